@@ -228,7 +228,7 @@ func registerTime() {
 		return e.ctx.SDiv(timeNs(a[0]), e.intConst(64, 1000000))
 	}
 	I["(time.Time).String"] = func(e *Exec, th *Thread, fn *ssa.Function, a []Value) Value {
-		return &SymStr{parts: []interface{}{"time(", symPart{"%d", timeNs(a[0])}, ")"}}
+		return &SymStr{parts: []interface{}{"time(", symPart{verb: "%d", t: timeNs(a[0])}, ")"}}
 	}
 	I["(time.Time).Format"] = I["(time.Time).String"]
 	I["(time.Time).UTC"] = func(e *Exec, th *Thread, fn *ssa.Function, a []Value) Value { return a[0] }
@@ -239,7 +239,16 @@ func registerTime() {
 		// Go: sec := d / Second; nsec := d % Second; return float64(sec) + float64(nsec)/1e9
 		if d.IsConst() {
 			v := d.Int64()
-			return c.FPConst(float64(v/nsPerSec) + float64(v%nsPerSec)/1e9)
+			return e.fpConst(float64(v/nsPerSec) + float64(v%nsPerSec)/1e9)
+		}
+		if e.intMode {
+			// mathematical integers: the division by 10^9 is linear arithmetic
+			if e.feasible(c.intCmp("lt", d, e.intConst(64, 0))) != Unsat {
+				panic(pathAbort{"bound", "relaxed float64: Duration.Seconds of a possibly negative duration"})
+			}
+			sec := c.intBin("div", d, e.intConst(64, nsPerSec))
+			nsec := c.intBin("mod", d, e.intConst(64, nsPerSec))
+			return e.fpBin("fp.add", e.fpFromInt(sec, true), e.fpBin("fp.div", e.fpFromInt(nsec, true), e.fpConst(1e9)))
 		}
 		// d built as sec*1e9 + nsec with 0 <= nsec < 1e9 (harness cut: keeps the
 		// 64-bit division by 10^9 away from the bit-blaster, DESIGN §2.9)
@@ -259,7 +268,7 @@ func registerTime() {
 	}
 	I["(time.Duration).Nanoseconds"] = func(e *Exec, th *Thread, fn *ssa.Function, a []Value) Value { return a[0] }
 	I["(time.Duration).String"] = func(e *Exec, th *Thread, fn *ssa.Function, a []Value) Value {
-		return &SymStr{parts: []interface{}{symPart{"%dns", a[0].(*Term)}}}
+		return &SymStr{parts: []interface{}{symPart{verb: "%dns", t: a[0].(*Term)}}}
 	}
 	I["time.Sleep"] = func(e *Exec, th *Thread, fn *ssa.Function, a []Value) Value {
 		e.sleep(th, a[0].(*Term))
